@@ -60,6 +60,10 @@ GRID_ATTRS = {
     "vertices": (2, [3, None]),
     "elements": (2, [3, None]),
     "volumes": (1, [None]),
+    "domain_indices": (1, [None]),
+    "vertex_on_boundary": (1, [None]),
+    "element_edges": (2, [3, None]),
+    "edges": (2, [2, None]),
     "element_neighbor_indices": (1, [None]),
     "element_neighbor_indexptr": (1, [None]),
     "centroids": (2, [None, 3]),
